@@ -260,6 +260,8 @@ class Reader(BaseValidator):
         """
         self.accepted_rows_count = 0
         self.rejected_rows_count = 0
+        # Reading the rows (again) starts a new run that has to be closed (again) to perform the checks at the end.
+        self._is_closed = False
         # Start at the first row again in case the rows have already been read before.
         self._location = errors.Location(self._location.file_path, has_cell=True)
         for check in self.cid.check_map.values():
